@@ -323,6 +323,7 @@ structure DState where
   st : State := State.init
   memo : IdMemo := {}
   dict : Dict := Dict.empty
+  slack : Int := 0
 
 def dictLayout (d : Dict) : String :=
   let occ := (d.buckets.toList.zip (List.range d.buckets.size)).filterMap fun (o, i) =>
@@ -355,7 +356,7 @@ def outKey (o : Out) : String :=
 def step (d : DState) (line : String) : DState × String :=
   match words line with
   | ["Q", m] => ({ d with q := if m == "none" then Quirks.none else Quirks.current }, "ok")
-  | ["R"] => ({ d with st := State.init, memo := {} }, "ok")
+  | ["R"] => ({ d with st := State.init, memo := {}, slack := 0 }, "ok")
   | ["N", conn, cid] =>
     match conn.toNat?, cid.toInt? with
     | some c, some i => ({ d with st := d.st.connect c i }, "ok")
@@ -376,19 +377,33 @@ def step (d : DState) (line : String) : DState × String :=
         -- between (the machine was busy: the generator keeps 4 ms away from every deadline it set), the
         -- command is judged at the instant whose outcome the implementation's reply matches.
         let now1 := (t1.toInt?).getD now0
+        -- a deadline set by an earlier step is known only up to that step's duration (the implementation
+        -- added the time to live to its own clock reading): `slack` is the longest step seen so far
+        let slack : Int := max d.slack (now1 - now0)
+        let d := { d with slack := slack }
         let ctx0 : Ctx := { q := d.q, now := now0, impl := implV }
+        let deadlineIn (lo hi : Int) : Bool := d.st.heap.any fun (_, db) => db.keys.any fun (_, e) =>
+          match e.exp with | some dl => decide (lo ≤ dl) && decide (dl ≤ hi) | none => false
+        let straddles : Bool := deadlineIn now0 now1
+        let lowStraddles : Bool := deadlineIn (now0 - slack) (now0 - 1)
         let oA := dispatch ctx0 d.st c argv
-        let straddles : Bool := d.st.heap.any fun (_, db) => db.keys.any fun (_, e) =>
-          match e.exp with | some dl => decide (now0 ≤ dl) && decide (dl ≤ now1) | none => false
-        let oB := if straddles then dispatch { ctx0 with now := now1 } d.st c argv else oA
-        let useB : Bool :=
-          straddles && outKey oA != outKey oB &&
-            (match implV with
-             | some g => !(replyMatches oA.hint oA.reply g) && replyMatches oB.hint oB.reply g
-             | none => oA.crash.isNone && oB.crash.isSome)
-        let now := if useB then now1 else now0
+        let fits (o : Out) : Bool := match implV with
+          | some g => o.crash.isNone && (!o.judged || replyMatches o.hint o.reply g)
+          | none => o.crash.isSome
+        let cands : List (Int × Out) :=
+          [(now0, oA)] ++
+          (if straddles then [(now1, dispatch { ctx0 with now := now1 } d.st c argv)] else []) ++
+          (if lowStraddles then [(now0 - slack - 1, dispatch { ctx0 with now := now0 - slack - 1 } d.st c argv)] else [])
+        let good := cands.filter fun (_, o) => fits o
+        let timing := straddles || lowStraddles
+        -- near a deadline the outcome may depend on which side of it the implementation's clock reading
+        -- fell: when no instant explains the reply, or two do with different resulting states, the
+        -- sequence is inconclusive from here on
+        let ambiguous : Bool := timing &&
+          (good.isEmpty || good.any fun (_, o) => outKey o != outKey (good.head!).2)
+        if ambiguous then (d, "ambig") else
+        let (now, o) := match good with | g :: _ => g | [] => (now0, oA)
         let ctx : Ctx := { ctx0 with now := now }
-        let o := if useB then oB else oA
         -- which known deviations mattered on this step?
         let specO := dispatch { ctx with q := Quirks.none } d.st c argv
         let hits : List String :=
